@@ -35,6 +35,20 @@ description stored after an iteration belongs to an experiment whose replicated 
 description after the explicit stores must be the one that was there before them (for a package without loops: the one written
 at creation), it is the one compared with the model, and the reloads read it.
 
+Also generated (fourth round): directories that ALREADY hold a description, and several writers of one directory
+(draw_directory_history).  (i) `leftover`: the PACKAGE carries a conf/flowir_instance.yaml - a hand-made description of another
+experiment, or the one an earlier run of the same package stored (other platform / user variables / more loop iterations); it
+is copied into the new instance and the experiment built there must replace it.  (ii) `rebuild`: after the reloads the instance
+directory is opened as a PACKAGE again (elaunch --restart <dir> --platform <other>: Experiment(dir, platform,
+updateInstanceConfiguration=True, is_instance=False)), for another platform and / or after input/variables.yaml was replaced:
+the description stored then must be flatten of THAT package / platform / variables (second model term), and two more reloads
+must give the experiment just built; with updateInstanceConfiguration=False nothing may be written.  (iii) `reload_mode`: the
+reloads open the directory with update (default), without (nothing may be written) or with is_instance=None.  (iv) `overlap`: two
+overlapping stores (writer B parked inside its store with nothing / half / all of its text written while writer A - a store on
+request, the next DoWhile iteration, a complete load - runs one whole store): no store may fail, the file must be one of the two
+descriptions and the directory must reload as that experiment.  Every opening of a directory is also compared with
+coq/Reload/Dir.v open_experiment ([parsed as package, update, description existed] -> was the file written).
+
 The configuration generator builds on harness/c04.py (same layer slots / clash patterns: an option or a variable
 defined independently on default/platform/foreign-platform global+stage blueprints, component, per-platform overrides,
 two user variable files) but draws schema-valid values, because a package must pass validation to be instantiated."""
@@ -47,7 +61,7 @@ import os
 import c04
 import c05
 import c07_impl
-from common import cstr, clist, cjv, copt, NPROC
+from common import cstr, clist, cjv, copt, cbool, NPROC
 
 PROP = 'C07'
 COQ_DIR = 'Reload'
@@ -66,11 +80,18 @@ ASSUMPTIONS = [
     'stores after the experiment was built (on request, after a loop iteration, by a reloaded experiment): the model has no notion '
     'of time - flatten is a function of the package - so the description compared with the model is the LAST one the live '
     'experiment stored before the reload, and that later stores leave the description alone is checked on the implementation',
+    'the directory over time (coq/Reload/Dir.v): the description type is abstract; that the description of the configuration parsed '
+    'from the package files is flatten of the package, and that load-and-store of a stored description is the identity on it, are '
+    'hypotheses there (the first is the correspondence with check_case - also for the experiment built AGAIN in a directory that held '
+    'another description -, the second C07_document_idempotent + the store.load.store predicate)',
+    'overlapping stores of one directory are exercised on the implementation only (one thread, writer A nested inside the dump of '
+    'writer B: the schedule of two threads parked on Events); the temporary-file protocol itself is C14\'s model, not this one\'s',
     'output / status-report / virtual-environments / application-dependencies / interface sections are left empty by the '
     'generator and not modelled',
 ]
 HEADER = 'Require Import V.Lib.JTree V.Conf.Model V.Reload.Model.\nOpen Scope string_scope.'
 CHECKER = 'check_case'
+HEADER_DIR = 'Require Import V.Reload.Dir.'
 CORPUS = os.path.join(os.path.dirname(os.path.abspath(__file__)), 'corpus', 'c07')
 
 put, get, leaves, layer_slot, prune = c04.put, c04.get, c04.leaves, c04.layer_slot, c04.prune
@@ -282,7 +303,7 @@ def gen_conf_case(rng, dens=None):
     draw_later_stores(rng, case)
     if folders:
         case['folders'] = folders
-    return case
+    return case     # (run() draws the history of the directory once the package is known to be valid)
 
 
 def draw_later_stores(rng, case):
@@ -290,6 +311,48 @@ def draw_later_stores(rng, case):
     store on request as well (40% of the cases keep the plain create / reload / reload sequence)"""
     case['post'] = rng.choice([0, 0, 1, 1, 2])
     case['restore'] = rng.random() < 0.35
+    return case
+
+
+def draw_directory_history(rng, case):
+    """fourth round: the directory ALREADY holds a description when an experiment is created in it / has several writers.
+    Drawn after everything else: `reload_mode` (how the reloads open the directory), `leftover` (the package carries a
+    conf/flowir_instance.yaml of another experiment), and at most one of `rebuild` (the directory is opened as a package again,
+    for another platform and / or other user variables - elaunch --restart --platform) and `overlap` (two overlapping stores)."""
+    conf = case['kind'] == 'conf'
+    case['reload_mode'] = rng.choice(['update'] * 6 + ['noupdate'] * 2 + ['auto'] * 2)
+    others = [P for P in ('default', 'p', 'q') if conf and P != case['platform'] and valid_package(dict(case, platform=P))]
+
+    def other_files():
+        r = rng.random()
+        if r < 0.4:
+            return []
+        if r < 0.6 and conf and case['files']:
+            return [copy.deepcopy(case['files'][-1])]
+        f = {'global': dict((n, gen_var_value(rng, n, 'later')) for n in rng.sample(VARS, 2))}
+        if rng.random() < 0.5:
+            n = rng.choice(VARS)
+            f['stages'] = {0: {n: gen_var_value(rng, n, 'later-s0')}}
+        return [f] if conf else []
+
+    if not case.get('folders') and rng.random() < 0.15:
+        if conf and others and rng.random() < 0.5:
+            case['leftover'] = {'kind': 'other-run', 'platform': rng.choice(others), 'files': other_files()}
+        elif not conf and rng.random() < 0.6:
+            case['leftover'] = {'kind': 'other-run', 'k': rng.choice([1, 2])}
+        else:
+            case['leftover'] = {'kind': 'foreign'}
+    r = rng.random()
+    if r < (0.25 if conf else 0.2):
+        rb = {'platform': case['platform'] if conf else None, 'update': rng.random() < 0.8}
+        if conf and others and rng.random() < 0.7:
+            rb['platform'] = rng.choice(others)
+        if conf and rng.random() < 0.5:
+            rb['files'] = other_files()
+        case['rebuild'] = rb
+    elif r < (0.5 if conf else 0.65):
+        a = rng.choice(['store', 'load'] if conf else ['iterate', 'iterate', 'iterate', 'store', 'load'])
+        case['overlap'] = {'a': a, 'b': rng.choice(['store', 'store', 'load']), 'at': rng.choice(['before', 'mid', 'after'])}
     return case
 
 
@@ -474,6 +537,103 @@ def predicate(ctx, case, obs):
                 break
 
 
+def same_experiment(case, a, b, edges=True):
+    """first SNAP key on which two snapshots differ (None: the same experiment)"""
+    for key, what in SNAP_KEYS:
+        if key == 'edges' and not edges:
+            continue
+        if a.get(key) != b.get(key):
+            return key, what
+    return None
+
+
+def predicate_history(ctx, case, obs):
+    """fourth round: an experiment (re-)created in a directory that already held a description; overlapping stores"""
+    rep = {'case': case}
+    rb = obs.get('rebuild')
+    if rb is not None:
+        P2 = case['rebuild']['platform']
+        if 'invalid' in rb:
+            # (the package is not a valid experiment for that platform with those user variables: a new instance cannot be
+            #  created from it either)
+            ctx.count('re-created_in_place:invalid_configuration_skipped')
+        elif 'error' in rb:
+            ctx.fail(dict(rep, error=rb), 'the instance directory could not be opened as a package again (platform %s: %s)'
+                     % (P2, rb['error']), [])
+        elif case['rebuild']['update']:
+            for i, r in enumerate(rb['reloads']):
+                if 'error' in r:
+                    ctx.fail(dict(rep, error=r), 'an experiment was built again from the package files of its instance directory '
+                             '(platform %s, updateInstanceConfiguration=True, is_instance=False) and the directory could not be loaded '
+                             'afterwards (%s)' % (P2, r['error']), [])
+                    break
+                d = same_experiment(case, rb['snap'], r)
+                if d:
+                    ctx.fail(dict(rep, difference=first_diff(rb['snap'][d[0]], r[d[0]], d[0])),
+                             'an experiment was built again from the package files of its instance directory (platform %s, '
+                             'updateInstanceConfiguration=True, is_instance=False): after reload %d the %s differs from the experiment '
+                             'that was just built' % (P2, i + 1, d[1]), [])
+                    break
+            if len(rb['reloads']) < 2 and not any('error' in r for r in rb['reloads']):
+                ctx.fail(rep, 'second reload after the re-creation missing', [])
+            for i, again in enumerate(rb['stored_again']):
+                d = first_diff(rb['stored'], again, 'flowir_instance')
+                if d:
+                    ctx.fail(dict(rep, difference=d), 'loading the re-created instance and storing it again changed '
+                                                      'conf/flowir_instance.yaml (cycle %d)' % (i + 1), [])
+                    break
+        else:
+            if not rb['same_bytes']:
+                ctx.fail(dict(rep, difference=first_diff(rb['stored_before'], rb['stored'], 'flowir_instance')),
+                         'the directory was opened with updateInstanceConfiguration=False and conf/flowir_instance.yaml changed', [])
+            if P2 == case.get('platform') and 'files' not in case['rebuild'] and (case['kind'] == 'conf' or case['k'] == 0):
+                d = same_experiment(case, obs['live'], rb['snap'])
+                if d:
+                    ctx.fail(dict(rep, difference=first_diff(obs['live'][d[0]], rb['snap'][d[0]], d[0])),
+                             'the experiment built again from the package files of its own instance directory (same platform and user '
+                             'variables, nothing stored) is not the experiment that wrote the instance: the %s differs' % d[1], [])
+    ov = obs.get('overlap')
+    if ov is not None:
+        o = case['overlap']
+        how = 'writer B (%s) had opened its file and written %s of its text when writer A (%s) ran a whole store' % (
+            o['b'], {'before': 'nothing', 'mid': 'half', 'after': 'all'}[o['at']], o['a'])
+        if not ov['parked'] and o['b'] == 'load' and not ov['errors']:
+            ctx.fail(rep, 'a complete load of the instance directory with updateInstanceConfiguration=True (experimentFromInstance) did '
+                          'not store the description it loaded', [])
+            return
+        if not ov['parked'] and not ov['errors']:
+            raise RuntimeError('C07 driver: writer B never reached the dump of its description')
+        for w in sorted(ov['errors']):
+            ctx.fail(dict(rep, error=ov['errors'][w]), 'two overlapping stores of the instance description: the store of writer %s '
+                     'failed (%s); %s' % (w, ov['errors'][w]['error'], how), [])
+        if isinstance(ov['desc_a'], dict) and 'error' in ov['desc_a'] and 'msg' in ov['desc_a']:
+            ctx.fail(dict(rep, error=ov['desc_a']), 'the experiment could not store its description after an overlapped store', [])
+            return
+        if 'error' in ov['after'] and 'msg' in ov['after']:
+            ctx.fail(dict(rep, error=ov['after']), 'after two overlapping stores conf/flowir_instance.yaml is not a description any '
+                     'more (%s); %s' % (ov['after']['error'], how), [])
+            return
+        is_a = first_diff(ov['desc_a'], ov['after']) is None
+        is_b = first_diff(ov['desc_b'], ov['after']) is None
+        if not (is_a or is_b):
+            ctx.fail(dict(rep, difference_to_A=first_diff(ov['desc_a'], ov['after'], 'flowir_instance'),
+                          difference_to_B=first_diff(ov['desc_b'], ov['after'], 'flowir_instance')),
+                     'after two overlapping stores conf/flowir_instance.yaml holds neither the description of writer A nor the one '
+                     'of writer B; ' + how, [])
+            return
+        if 'error' in ov['reload'] and 'msg' in ov['reload']:
+            ctx.fail(dict(rep, error=ov['reload']), 'after two overlapping stores the instance directory could not be loaded again '
+                     '(%s); %s' % (ov['reload']['error'], how), [])
+            return
+        # (the edges of a live graph after loop iterations: open finding F7c, compared by the main predicate)
+        cands = ([ov['snap_a']] if is_a else []) + ([ov['snap_b']] if is_b and ov['snap_b'] else [])
+        diffs = [same_experiment(case, c, ov['reload'], edges=case['kind'] == 'conf') for c in cands]
+        if cands and all(diffs):
+            ctx.fail(dict(rep, difference=first_diff(cands[0][diffs[0][0]], ov['reload'][diffs[0][0]], diffs[0][0])),
+                     'after two overlapping stores the directory reloads as neither of the experiments that stored their description '
+                     '(%s differs); %s' % (diffs[0][1], how), [])
+
+
 # ------------------------------------------------------------------ Coq terms
 def skey(c):
     return (c.get('stage', 0), c.get('name', ''))
@@ -489,6 +649,13 @@ def case_term(case, obs):
                               clist(sorted(st.get('components', []), key=skey), cjv),
                               cjv(st.get('environments', {}).get('default', {})))
     return '((%s, Some %s) : case_in * option case_out)' % (i, o)
+
+
+def rebuilt_case(case, obs):
+    """the package / user variables / platform of the experiment that was built again in the directory"""
+    rb = case['rebuild']
+    files = rb['files'] if 'files' in rb else ([obs['user']] if obs.get('user') else [])
+    return dict(case, platform=rb['platform'], files=c04.fix_stage_keys(copy.deepcopy(files)))
 
 
 def stored_extras_trivial(st, case):
@@ -550,6 +717,16 @@ def explore(ctx, cases, parallel=True):
             ctx.count('loop_iterations=%d' % case['k'])
             r = case.get('rep') or {}
             ctx.count('loop_replicated_components=outside:%d,inside:%d' % (r.get('outside', 0), r.get('inside', 0)))
+        ctx.count('reload_mode=%s' % (case.get('reload_mode') or 'update'))
+        lo, rb, ov = case.get('leftover'), case.get('rebuild'), case.get('overlap')
+        ctx.count('package_carries_a_description=%s' % (lo['kind'] if lo else None))
+        if rb:
+            ctx.count('re-created_in_place=%s,%s,update=%s' % (
+                'other-platform' if rb['platform'] != case.get('platform') else 'same-platform',
+                'other-user-variables' if 'files' in rb else 'same-user-variables', rb['update']))
+        if ov:
+            ctx.count('overlapping_stores=A:%s,B:%s,at:%s' % (ov['a'], ov['b'], ov['at']))
+        ctx.count('directory_history=%s' % ('re-created' if rb else 'overlap' if ov else 'plain'))
         ctx.count('explicit_stores_after_build=%d' % (case.get('post') or 0))
         ctx.count('reloaded_experiment_stores_on_request=%s' % bool(case.get('restore')))
         replicated = bool(case.get('replicate') or case.get('rep'))
@@ -573,6 +750,7 @@ def explore(ctx, cases, parallel=True):
         ctx.case(case, nontrivial(case, obs))
         ctx.count('nodes=%d' % len(obs['live']['nodes']))
         predicate(ctx, case, obs)
+        predicate_history(ctx, case, obs)
         ctx.count('instance_file_bytes_identical_after_reload=%s' % all(obs['same_bytes']))
         if case['kind'] == 'conf':
             if not stored_extras_trivial(obs['stored'], case):
@@ -581,12 +759,38 @@ def explore(ctx, cases, parallel=True):
                              None, 'C07 conf/flowir_instance.yaml: sections outside the model are not at their trivial values')
             terms.append(case_term(case, obs))
             owners.append((case, obs))
+            rb = obs.get('rebuild')
+            if rb and 'error' not in rb and 'invalid' not in rb and case['rebuild']['update']:
+                # the description that the experiment built again in the directory stored = flatten of ITS package / platform
+                case2 = rebuilt_case(case, obs)
+                if not stored_extras_trivial(rb['stored'], case2):
+                    ctx.disagree({'case': case}, dict((k, rb['stored'].get(k)) for k in rb['stored']
+                                                      if k not in ('components', 'variables', 'blueprint', 'environments')),
+                                 None, 'C07 conf/flowir_instance.yaml after the re-creation: sections outside the model are not trivial')
+                terms.append(case_term(case2, {'stored': rb['stored']}))
+                owners.append((case, {'stored': rb['stored'], 'rebuilt_as': {'platform': case2['platform'], 'files': case2['files']}}))
+                ctx.count('model_cases_re-created_in_place')
             if len(ctx.samples) < 3 and nontrivial(case, obs):
                 ctx.sample({'platform': case['platform'], 'package': case['doc'], 'user_variables': case['files'],
                             'flowir_instance': obs['stored']})
     if cases and created * 10 < len(cases) * 8:
         ctx.disagree({'cases': len(cases), 'instantiated': created}, dict(ctx.hist), None,
                      'C07 generator: fewer than 80% of the generated (valid) packages could be instantiated')
+    # the decision to store (Dir.v: open_experiment / generate) on every opening of a directory that was observed
+    oterms, oowners = [], []
+    for case, obs in zip(cases, observations):
+        for o in obs.get('opens') or []:
+            oterms.append('((%s, %s, %s), %s)' % tuple(cbool(bool(x)) for x in o))
+            oowners.append((case, o))
+            ctx.count('open:package=%s,update=%s,description_existed=%s' % tuple(o[:3]))
+    for i in ctx.model_mismatches(HEADER_DIR, oterms, 'check_open', chunk=2000, name='c07dir'):
+        case, o = oowners[i]
+        if o[1] and not o[3]:
+            ctx.fail({'case': case, 'opening': dict(zip(['parsed_as_package', 'update', 'description_existed', 'written'], o))},
+                     'an experiment was built in a directory that already held a description, with updateInstanceConfiguration=True, '
+                     'and did not store its own description (parsed as a %s)' % ('package' if o[0] else 'instance'), [])
+        ctx.disagree({'case': case}, {'opening': o}, None, 'C07 opening a directory (Experiment.__init__ / _generate_instance_files) '
+                                                          'vs Reload.Dir.open_experiment: [package, update, existed, written]')
     bad = ctx.model_mismatches(HEADER, terms, CHECKER, chunk=10, name='c07')
     for k, i in enumerate(bad):
         case, obs = owners[i]
@@ -618,7 +822,7 @@ def gen_loop_case(rng, k):
             if not (rep['outside'] or rep['inside']):
                 rep[rng.choice(['outside', 'inside'])] = 2
             case['rep'] = rep
-        return draw_later_stores(rng, case)
+        return draw_directory_history(rng, draw_later_stores(rng, case))
 
 
 def run(ctx):
@@ -633,7 +837,12 @@ def run(ctx):
                 'generator with k = 0..3 (quick) further iterations stored before the reload, 70% of them with replicated + aggregating '
                 'components added outside the loop (xrep x2/x3, xagg) and / or inside the DoWhile document (zrep x1/x2, zagg); every case: '
                 'create the instance, 0/1/2 (weights 2:2:1) explicit stores on request by the built experiment, reload twice, in 35% of '
-                'the cases every reloaded experiment stores on request as well before the directory is read again; non-trivial = selected platform is not default and >= 2 options/variables are '
+                'the cases every reloaded experiment stores on request as well before the directory is read again; the history of the directory: '
+                'reloads with update / without (20%) / is_instance=None (20%); 15% of the directory packages carry a conf/flowir_instance.yaml '
+                '(foreign description, or the one of an earlier run on another platform / other user variables / 1-2 more iterations); 25% '
+                '(loops 20%) are opened as a package again after the reloads (70% another platform, 50% other user variables, 80% with update) '
+                'and reloaded twice; 25% (loops 45%) get two overlapping stores (A: store / load / next iteration, B: store / load, parked before / '
+                'in the middle of / after its dump); non-trivial = selected platform is not default and >= 2 options/variables are '
                 'defined by >= 2 layers of that platform, or a loop with >= 1 further iteration; distinct by the case')
     rng = ctx.rng
     n_conf = 150 if ctx.tier == 'quick' else 1500
@@ -643,7 +852,7 @@ def run(ctx):
         tries += 1
         c = gen_conf_case(rng)
         if valid_package(c):
-            cases.append(c)
+            cases.append(draw_directory_history(rng, c))
         else:
             ctx.count('generated_invalid_package_skipped')
     ks = [0, 1, 2, 3] if ctx.tier == 'quick' else [0, 1, 2, 3, 5, 11]
